@@ -108,7 +108,7 @@ PROPS = {
         timeout={"quick": 900, "thorough": 3600},
     ),
     "C15": dict(
-        lean_modules=["Liftbridge.Props.C15"],
+        lean_modules=["Liftbridge.Props.C15", "Liftbridge.Props.GoAuthz"],
         gen_sources=["server/api.go", "server/authz.go", "server/signal.go"],
         go_pkg="./server", test="TestVerifC15",
         level="proof",
